@@ -3779,3 +3779,260 @@ func init() {
 	registry["C15"].Meta.Rules["C15.25"] = "Get returns the bytes, not the storage: every non-nil []byte returned by getObjectFromDirect / getObjectFromIndirect is made in that function (a window into Objects is zeroed by a later delete and overwritten by an append on the caller's side)"
 	registry["C15"].Rules = append(registry["C15"].Rules, func(c *Ctx, r *Result) { heapGetFreshRule(c, r, "C15.25") })
 }
+
+// ======== round 9: small exact rules ========
+
+// kindClassRule: an arm selected by one reflect.Kind builds a datatype of the class that kind belongs to.
+func kindClassRule(c *Ctx, r *Result, rule string, floor int) {
+	classOf := func(kind int64) (int64, bool) {
+		switch {
+		case kind >= 2 && kind <= 11: // Int..Uint64
+			return 0, true // fixed point
+		case kind == 13 || kind == 14:
+			return 1, true // floating point
+		case kind == 24:
+			return 3, true // string
+		}
+		return 0, false
+	}
+	n := 0
+	for _, fn := range c.LibFuncs() {
+		if shortPkg(fnPkgPath(fn)) != "hdf5" || fn.Blocks == nil {
+			continue
+		}
+		k := 0
+		for _, b := range fn.Blocks {
+			ifi, ok := b.Instrs[len(b.Instrs)-1].(*ssa.If)
+			if !ok {
+				continue
+			}
+			cmp, ok := ifi.Cond.(*ssa.BinOp)
+			if !ok || cmp.Op != token.EQL {
+				continue
+			}
+			kind, isK := constInt(cmp.Y)
+			call, isCall := stripConv(cmp.X).(*ssa.Call)
+			if !isK || !isCall {
+				continue
+			}
+			name := ""
+			if call.Call.IsInvoke() {
+				name = call.Call.Method.Name()
+			} else if f := call.Call.StaticCallee(); f != nil {
+				name = f.Name()
+			}
+			if name != "Kind" {
+				continue
+			}
+			want, known := classOf(kind)
+			if !known {
+				continue
+			}
+			for blk := range edgeRegion(b, b.Succs[0]) {
+				for _, in := range blk.Instrs {
+					st, isSt := in.(*ssa.Store)
+					if !isSt {
+						continue
+					}
+					fa, isFA := st.Addr.(*ssa.FieldAddr)
+					if !isFA {
+						continue
+					}
+					f, base := fieldOfAddr(fa)
+					if f == nil || fieldKey(base.Type(), f) != "core.DatatypeMessage.Class" {
+						continue
+					}
+					cls, isC := constInt(stripConv(st.Val))
+					if !isC {
+						continue
+					}
+					n++
+					k++
+					r.Check(cls == want, rule, fmt.Sprintf("%s#class-for-kind-%d", c.Name(fn), kind), c.InstrPos(st), fmt.Sprintf("the arm for reflect kind %d builds a datatype of class %d (fixed point 0, floating point 1, string 3)", kind, cls))
+				}
+			}
+		}
+	}
+	if n < floor {
+		r.Shortfall(c, rule, fmt.Sprintf("%s: only %d kind-selected datatype constructions found (expected >= %d)", rule, n, floor))
+	}
+}
+
+// scanComplementRule: after `for cur < L && x[cur] != t { cur++ }` the failure test is cur >= L with the same L.
+func scanComplementRule(c *Ctx, r *Result, rule string, floor int) {
+	n := 0
+	for _, fn := range c.LibFuncs() {
+		if fn.Blocks == nil {
+			continue
+		}
+		var fb *FB
+		k := 0
+		instrs(fn, func(in ssa.Instruction) {
+			phi, ok := in.(*ssa.Phi)
+			if !ok {
+				return
+			}
+			hdr := phi.Block()
+			isHdr := false
+			for _, p := range hdr.Preds {
+				if hdr.Dominates(p) {
+					isHdr = true
+				}
+			}
+			ifi, isIf := hdr.Instrs[len(hdr.Instrs)-1].(*ssa.If)
+			if !isHdr || !isIf {
+				return
+			}
+			lc, isC := ifi.Cond.(*ssa.BinOp)
+			if !isC || lc.Op != token.LSS || stripConv(lc.X) != ssa.Value(phi) {
+				return
+			}
+			loop := naturalLoop(hdr)
+			// the second conjunct reads x[cur]
+			reads := false
+			for blk := range loop {
+				for _, in2 := range blk.Instrs {
+					switch x := in2.(type) {
+					case *ssa.IndexAddr:
+						if stripConv(x.Index) == ssa.Value(phi) {
+							reads = true
+						}
+					case *ssa.Index:
+						if stripConv(x.Index) == ssa.Value(phi) {
+							reads = true
+						}
+					case *ssa.Lookup:
+						if stripConv(x.Index) == ssa.Value(phi) {
+							reads = true
+						}
+					}
+				}
+			}
+			if !reads {
+				return
+			}
+			if fb == nil {
+				fb = c.FB(fn)
+			}
+			// failure tests on the cursor outside the loop
+			for _, b := range fn.Blocks {
+				if loop[b] {
+					continue
+				}
+				fi, isF := b.Instrs[len(b.Instrs)-1].(*ssa.If)
+				if !isF {
+					continue
+				}
+				fc, isFC := fi.Cond.(*ssa.BinOp)
+				if !isFC || stripConv(fc.X) != ssa.Value(phi) || !errorOnlyBlock(b.Succs[0], 0) {
+					continue
+				}
+				d := fb.lin(fc.Y).add(fb.lin(lc.Y), -1)
+				if !sameByName(fb, fb.lin(fc.Y).add(linConst(d.C), -1), fb.lin(lc.Y)) {
+					continue
+				}
+				var want int64
+				switch fc.Op {
+				case token.GEQ, token.EQL:
+					want = 0
+				case token.GTR:
+					want = -1
+				default:
+					continue
+				}
+				n++
+				k++
+				r.Check(d.C == want, rule, fmt.Sprintf("%s#scan-failure-test-%d", c.Name(fn), k), c.InstrPos(fc), fmt.Sprintf("the scan runs while cur < L; the failure test compares cur %s L%+d", fc.Op, d.C))
+			}
+		})
+	}
+	if n < floor {
+		r.Shortfall(c, rule, fmt.Sprintf("%s: only %d scan failure tests found (expected >= %d)", rule, n, floor))
+	}
+}
+
+// emptyWindowRule: copy(dst[k:], ..) where dst was made with length k copies nothing.
+func emptyWindowRule(c *Ctx, r *Result, rule string, floor int) {
+	n := 0
+	for _, fn := range c.LibFuncs() {
+		if fn.Blocks == nil {
+			continue
+		}
+		var fb *FB
+		k := 0
+		for _, site := range callsIn(fn) {
+			call, ok := site.(*ssa.Call)
+			if !ok {
+				continue
+			}
+			b, isB := call.Call.Value.(*ssa.Builtin)
+			if !isB || b.Name() != "copy" {
+				continue
+			}
+			sl, isSl := call.Call.Args[0].(*ssa.Slice)
+			if !isSl || sl.Low == nil || sl.High != nil {
+				continue
+			}
+			ms, isMS := sl.X.(*ssa.MakeSlice)
+			if !isMS {
+				continue
+			}
+			if fb == nil {
+				fb = c.FB(fn)
+			}
+			n++
+			k++
+			d := fb.lin(ms.Len).add(fb.lin(sl.Low), -1)
+			empty := d.isConst() && d.C <= 0
+			r.Check(!empty, rule, fmt.Sprintf("%s#copy-window-%d", c.Name(fn), k), c.InstrPos(call), fmt.Sprintf("the destination window starts at %s in a slice of length %s", fb.linString(fb.lin(sl.Low)), fb.linString(fb.lin(ms.Len))))
+		}
+	}
+	if n < floor {
+		r.Shortfall(c, rule, fmt.Sprintf("%s: only %d copies into an open-ended window of a fresh slice found (expected >= %d)", rule, n, floor))
+	}
+}
+
+func init() {
+	// C06: the sign bit
+	signID := nextRuleID("C06")
+	registry["C06"].Meta.Rules[signID] = "signed integers are recognised by the format's sign bit: DatatypeMessage.IsSigned masks the class bit field with 0x08 (bit 3 of a fixed-point type; with 0x04, the high-padding bit, every negative value of the corpus reads back as 2^32 - |v|)"
+	signRule := func(id string) func(c *Ctx, r *Result) {
+		return func(c *Ctx, r *Result) {
+			fn := c.FnOpt("core.DatatypeMessage.IsSigned")
+			if fn == nil {
+				r.Undec(id, "core.DatatypeMessage.IsSigned#sign-bit", "", "function not found")
+				return
+			}
+			n := 0
+			instrs(fn, func(in ssa.Instruction) {
+				bo, ok := in.(*ssa.BinOp)
+				if !ok || bo.Op != token.AND {
+					return
+				}
+				if m, isK := constInt(bo.Y); isK {
+					n++
+					r.Check(m == 0x08, id, "core.DatatypeMessage.IsSigned#sign-bit", c.InstrPos(bo), fmt.Sprintf("the class bit field is masked with %#x", m))
+				}
+			})
+			if n == 0 {
+				r.Undec(id, "core.DatatypeMessage.IsSigned#sign-bit", c.Pos(fn.Pos()), "no mask of the class bit field found")
+			}
+		}
+	}
+	registry["C06"].Rules = append(registry["C06"].Rules, signRule(signID))
+	id01 := nextRuleID("C01")
+	registry["C01"].Meta.Rules[id01] = registry["C06"].Meta.Rules[signID] + " (shared with " + signID + ")"
+	registry["C01"].Rules = append(registry["C01"].Rules, signRule(id01))
+
+	// C02: kind -> class
+	txt := "a value is stored under the datatype class of its Go kind: in the root package an arm selected by `Kind() == K` that builds a core.DatatypeMessage gives it class fixed-point for the integer kinds, floating-point for Float32/Float64, string for String (a []float32 attribute declared fixed-point reads back as []int32 holding the bit patterns)"
+	shareRule([]string{"C02", "C01"}, txt, "C02", func(c *Ctx, r *Result, id string) { kindClassRule(c, r, id, 4) })
+
+	// C03 / C06: scan failure test
+	txt = "a scan that stopped inside the buffer found its terminator: after `for cur < L && x[cur] != t { cur++ }` the test that reports 'not terminated' is cur >= L with the same L (with L-1 a name whose terminator is the last byte of the name heap is refused: a group whose names fill the heap exactly can no longer be opened)"
+	shareRule([]string{"C03", "C06", "C11"}, txt, "C03", func(c *Ctx, r *Result, id string) { scanComplementRule(c, r, id, 2) })
+
+	// C12 / C11: copy into an empty window
+	txt = "a copy has somewhere to go: where copy(dst[k:], src) writes into a slice made in the same function, the slice is longer than k (make([]byte, 8, 8+n) followed by copy(buf[8:], props) copies nothing: every variable-length datatype message loses its base type)"
+	shareRule([]string{"C12", "C11", "C05"}, txt, "C12", func(c *Ctx, r *Result, id string) { emptyWindowRule(c, r, id, 5) })
+}
